@@ -528,6 +528,7 @@ func c01Main(r *run.Runner) {
 			w.Fail("invalid-sql:deep:"+c12Wrappers[d.i].name, src, fmt.Sprintf("output is not valid SQL: %v", perr), nil)
 		}
 	})
+	c01Wide(r, getState)
 	// leaf kinds
 	r.Sweep("leaf-kinds", 3, func(w *run.Worker, item int64) {
 		st := getState(w)
